@@ -181,7 +181,7 @@ func registerEnvStubs() {
 		out := &Map{KT: types.Typ[types.String], VT: any, id: e.mapSeq, noPerm: true}
 		if x, ok := a[0].(Iface); ok && x.T != nil && types.Identical(x.T, e.specType("Parameter")) {
 			// contract: the JSON object of a parameter holds its non-empty scalar members
-			e.run.noteStub("swag.ToDynamicJSON(parameter): the JSON object holding the parameter's non-empty name, in, type, format and true required members (iterated in key order)")
+			e.run.noteStub("swag.ToDynamicJSON(parameter): the JSON object holding the parameter's non-empty name, in, type, format and true required members, an items object holding its type, an empty schema object (iterated in key order)")
 			pst := x.T.Underlying().(*types.Struct)
 			ps := x.V.(Structure)
 			str := func(emb, f, key string) {
@@ -195,6 +195,22 @@ func registerEnvStubs() {
 			str("SimpleSchema", "Format", "format")
 			if r, ok := fieldByName(ps, pst, "ParamProps", "Required").(*Term); ok && r.conc() && r.b() {
 				e.mapSet(out, "required", Iface{T: types.Typ[types.Bool], V: tTrue})
+			}
+			mapT := types.NewMap(types.Typ[types.String], any)
+			sub := func(key string, typ string) {
+				e.mapSeq++
+				m := &Map{KT: types.Typ[types.String], VT: any, id: e.mapSeq, noPerm: true}
+				if typ != "" {
+					e.mapSet(m, "type", Iface{T: types.Typ[types.String], V: typ})
+				}
+				e.mapSet(out, key, Iface{T: mapT, V: m})
+			}
+			if it, ok := fieldByName(ps, pst, "SimpleSchema", "Items").(*Value); ok && it != nil {
+				ist := e.specType("Items").Underlying().(*types.Struct)
+				sub("items", e.strOf(fieldByName((*it).(Structure), ist, "SimpleSchema", "Type")))
+			}
+			if sc, ok := fieldByName(ps, pst, "ParamProps", "Schema").(*Value); ok && sc != nil {
+				sub("schema", "")
 			}
 			return Iface{T: types.NewMap(types.Typ[types.String], any), V: out}
 		}
